@@ -989,6 +989,16 @@ func (c *Client) stepUpdateTable(op adapt.Op, got adapt.Outcome) []Diff {
 			}
 			names[ch.Create.Name] = true
 		}
+		if ch.Update != "" {
+			if !names[ch.Update] {
+				// new throughput for an index that does not exist: DynamoDB rejects; minidyn ignores the action.
+				// Either way the set of indexes must not change - the model goes on with the other changes
+				// only if the call succeeded
+				if got.Class != adapt.ClsOK {
+					return wantClass(op, got, adapt.ClsNotFound, adapt.ClsValidation)
+				}
+			}
+		}
 		if ch.Delete != "" {
 			if !names[ch.Delete] {
 				return wantClass(op, got, adapt.ClsNotFound, adapt.ClsValidation)
